@@ -240,6 +240,10 @@ def eval_const_operand(fn, defs, op):
     return None
 
 
+def opcode_of_names(kw):
+    return {r["name"] for r in kw}
+
+
 def strip_crate(p):
     # `clvm_rs::more_ops::op_add` (as seen from chialisp) -> `more_ops::op_add`
     if p.startswith("clvm_rs::") or p.startswith("clvmr::"):
@@ -504,7 +508,10 @@ def run(tier="quick", replay=None):
             return True, a[1]
         return False, "no %d-byte arm for 0x%s in %s" % (len(opcode_bytes), opcode_bytes.hex(), ctor)
 
-    for r in kw:
+    run_complete = len([1 for x in run_sel.values() if x]) >= 3
+    if not run_complete:
+        R.info("R20.IMPL/NAME/RUN.guard skipped: the runner's version -> dialect selection could not be recovered (anchor lost above)")
+    for r in (kw if run_complete else []):
         for ver in range(r["version"], maxver + 1):
             ok, how = implemented(ver, r["bytes"])
             R.check(ok, "R20.IMPL", "R20.IMPL|%s|v%d" % (r["name"], ver), RUNNER,
@@ -523,7 +530,7 @@ def run(tier="quick", replay=None):
         # (names absent from a lower version are simply not assembled) nothing to check.
     # keccak: runner passes the guard flag exactly for version >= 2
     for v, sel in sorted(run_sel.items(), key=lambda x: str(x[0])):
-        if not sel:
+        if not sel or not run_complete:
             continue
         ver = maxver if v == "otherwise" else v
         ctor, flags = sel
@@ -699,6 +706,47 @@ def run(tier="quick", replay=None):
             R.ob("R20.ALIAS", "R20.ALIAS|numeric-heads-are-opcodes", "%s:%s" % (th.file, th.line),
                  "auto: translate_head resolves names for atoms only; a number in head position is never looked up in the "
                  "name table (%d opcode/name byte collisions exist in the keyword table and are harmless)" % len(collisions), fn=th.path)
+
+    # ---------------- built-in prelude sources do not redefine operator names -----------------
+    import re as _re
+    allow = json.load(open(os.path.join(VERIF, "tables", "c20_prelude_shadow.json")))
+    defs_re = _re.compile(r"\(\s*(defun-inline|defun|defmacro|defmac|defconstant|defconst)\s+([^\s()]+)")
+    nprelude = 0
+    seen_shadow = set()
+    for f in prog.fns.values():
+        if not (f.path.endswith("__static_ref_initialize") and ("compiler::dialect::" in f.path or "compiler::compiler::" in f.path)):
+            continue
+        texts = []
+        for bb, i, s in f.stmts():
+            for o in rv_operands(s["rv"]):
+                c = op_const(o)
+                if c and "str" in c and "(" in c["str"]:
+                    texts.append(c["str"])
+        for bb, tt in f.calls():
+            for a in tt["args"]:
+                c = op_const(a)
+                if c and "str" in c and "(" in c["str"]:
+                    texts.append(c["str"])
+        for txt in texts:
+            nprelude += 1
+            for kind, name in defs_re.findall(txt):
+                if name in opcode_of_names(kw):
+                    key = "R20.SHADOW|%s|%s" % (f.path.split(" as ")[0].lstrip("<").rsplit("::", 1)[-1], name)
+                    if key in seen_shadow:
+                        continue
+                    seen_shadow.add(key)
+                    if key in allow:
+                        R.ob("R20.SHADOW", key, "%s:%s" % (f.file, f.line), "table: %s" % allow[key]["reason"], fn=f.path)
+                    else:
+                        R.viol("R20.SHADOW", key, "%s:%s" % (f.file, f.line),
+                               "the built-in source text of %s defines `%s` with %s: in programs using it the operator NAME %r no "
+                               "longer denotes opcode 0x%s but a user-level function, unlike in the assembler and the other "
+                               "dialects" % (f.path.split(" as ")[0].lstrip("<"), name, kind, name,
+                                             [r for r in kw if r["name"] == name][0]["bytes"].hex()), fn=f.path)
+    R.floor("R20.SHADOW", "built-in prelude texts scanned", nprelude, 6)
+    if not seen_shadow:
+        R.ob("R20.SHADOW", "R20.SHADOW|scan", "compiler::dialect / compiler::compiler", "auto: %d built-in source texts define no "
+             "helper named like an operator" % nprelude)
 
     # ---------------- opcode byte strings are never truncated ------------------------
     fams = set()
